@@ -17,6 +17,7 @@ import (
 	"fmt"
 	"os"
 	"os/exec"
+	"path/filepath"
 	"runtime"
 	"runtime/debug"
 	"sort"
@@ -88,6 +89,18 @@ func property(t *rapid.T) {
 	if res.Harness != "" {
 		t.Fatalf("harness: %s\n%s", res.Harness, describe(h))
 	}
+	// The exclusion of the known class relies on the model: everything it believes to exist
+	// must really have been created (the converse is harmless).
+	for i, ok := range res.instOK {
+		if m.insts[i].ok && !ok {
+			t.Fatalf("harness: the generator's model believes instance i%d exists but its creation failed (%v)\n%s", i, res.Labels, describe(h))
+		}
+	}
+	for i, ok := range res.cmOK {
+		if m.cms[i].ok && !ok {
+			t.Fatalf("harness: the generator's model believes cm%d exists but its creation failed (%v)\n%s", i, res.Labels, describe(h))
+		}
+	}
 	if res.Violation != "" {
 		evid.Fail(t, h, "%s\nhistory (%s):\n%s", res.Violation, h.Cfg.Engine, describe(h))
 	}
@@ -115,7 +128,7 @@ func property(t *rapid.T) {
 	}
 	for l, n := range res.Labels {
 		evid.Label(l, int64(n))
-		if strings.Contains(l, "source module must be compiled") {
+		if sh, _ := evid.Shard(); sh == 0 && strings.Contains(l, "source module must be compiled") {
 			siblingNote.Do(func() {
 				evid.Note("side observation, not a C09 violation (the statement speaks about LIVE instances): two CompiledModules made from identical bytes share one engine cache entry keyed by module ID; closing one of them (CompiledModule.Close, or closing an instance that InstantiateWithConfig created from the same bytes) makes InstantiateModule of the other fail with %q, on both engines. Instances that already exist keep answering like the twin. Minimal input: compile(bytes) twice, close the first, InstantiateModule(the second).", strings.TrimPrefix(l, "create-failed: "))
 			})
@@ -318,6 +331,39 @@ func knownVariants() []knownVariant {
 
 // knownHistory is the canonical input of the open finding.
 func knownHistory(engine string) *history { return knownVariants()[0].hist(engine) }
+
+// knownInputPath is where the canonical input of the open finding is kept as a replay file
+// (./check C09 --replay <that file> reproduces it).
+func knownInputPath(engine string) string {
+	return filepath.Join(evid.Root(), "checks", "c09", "known-dangling-funcref."+engine+".json")
+}
+
+// TestKnownInputFiles keeps the stored replay inputs of the finding equal to what
+// TestKnownDanglingFuncref executes (C09_WRITE_KNOWN=1 rewrites them).
+func TestKnownInputFiles(t *testing.T) {
+	if evid.ReplayPath() != "" || os.Getenv("C09_CHILD") != "" {
+		t.Skip()
+	}
+	if sh, _ := evid.Shard(); sh != 0 {
+		t.Skip()
+	}
+	for _, eng := range []string{"interpreter", "compiler"} {
+		want, _ := json.MarshalIndent(map[string]any{"property": "C09", "check": "known-dangling-funcref", "finding": knownID,
+			"message": "canonical input of the open finding " + knownID, "case": knownHistory(eng)}, "", " ")
+		want = append(want, '\n')
+		if os.Getenv("C09_WRITE_KNOWN") != "" {
+			if err := os.WriteFile(knownInputPath(eng), want, 0o644); err != nil {
+				t.Fatal(err)
+			}
+			continue
+		}
+		got, err := os.ReadFile(knownInputPath(eng))
+		if err != nil || !bytes.Equal(got, want) {
+			evid.Incomplete("stored known-finding input %s is missing or out of date (%v)", knownInputPath(eng), err)
+			t.Errorf("stored known-finding input %s is missing or out of date (%v)", knownInputPath(eng), err)
+		}
+	}
+}
 
 func TestReplay(t *testing.T) {
 	p := evid.ReplayPath()
